@@ -95,6 +95,35 @@ Theorem C01_pick_is_least_of_several : forall mine v,
 Proof. exact pick_case3_least. Qed.
 Print Assumptions C01_pick_is_least_of_several.
 
+(* ---- 3b. process lifetime and node-local request traffic.  A node's life [list nevent] = blocks interleaved with
+        local requests (queries pinned to ANY committed version, CheckTx, simulations) and restarts.  The process'
+        memory besides the stores is a component of ANY type [mem], changed by requests and blocks through ARBITRARY
+        functions and reset to [boot] by a restart.  Two nodes — other memory and other ways of using it, other
+        requests at other places, other restarts, other ambient conditions for every block — that execute the same
+        blocks from the same state end in the same state and produce the same results and validator updates, block by
+        block *)
+Theorem C01_node_lives_agree : forall interp mem1 mem2 serve1 serve2 after1 after2 boot1 boot2 ef1 ef2 l1 l2
+    (nd1 : node mem1) (nd2 : node mem2),
+  (forall n, perm_ok (ef1 n)) -> (forall n, perm_ok (ef2 n)) ->
+  nd_cur mem1 nd1 = nd_cur mem2 nd2 -> nd_n mem1 nd1 = nd_n mem2 nd2 -> blocks_of l1 = blocks_of l2 ->
+  let r1 := node_run interp impl_head mem1 serve1 after1 boot1 ef1 nd1 l1 in
+  let r2 := node_run interp impl_head mem2 serve2 after2 boot2 ef2 nd2 l2 in
+  nd_cur mem1 (fst r1) = nd_cur mem2 (fst r2) /\ block_outs (snd r1) = block_outs (snd r2).
+Proof.
+  intros interp mem1 mem2 serve1 serve2 after1 after2 boot1 boot2 ef1 ef2 l1 l2 nd1 nd2 H1 H2.
+  apply node_lives_agree; intros n; apply perm_enum; auto.
+Qed.
+Print Assumptions C01_node_lives_agree.
+
+(* the blocks of a life come out exactly as the bare chain of its blocks: requests and restarts are erasable (for every
+   implementation variant, also the defective ones: the defects were in what a block reads from [nenv]) *)
+Theorem C01_local_requests_and_restarts_erasable : forall interp im mem serve after_block boot ef l (nd : node mem),
+  let r := node_run interp im mem serve after_block boot ef nd l in
+  let c := exec_chain interp im ef (nd_n mem nd) (nd_cur mem nd) (blocks_of l) in
+  nd_cur mem (fst r) = fst c /\ block_outs (snd r) = snd c.
+Proof. exact node_run_blocks. Qed.
+Print Assumptions C01_local_requests_and_restarts_erasable.
+
 (* ---- 4. the statement is about the code as repaired: each of the three defects the unchanged tree had refutes it
         (known findings C01/twin/..., fixed by /repo 295ed89, 133c300, 17e00a9) *)
 Definition C01_env_independent_of (im : impl) : Prop :=
@@ -153,3 +182,23 @@ Proof.
   destruct (distinct_ops ex_vals ex_vals_distinct) as [ND KI].
   split; [exact ND | split; [exact KI | split; vm_compute; reflexivity]].
 Qed.
+
+(* two lives around the same two blocks: the first node serves nothing, the second answers a query on version 0 before
+   and after the first block, checks and simulates transactions, is restarted in between, counts its requests in
+   memory and runs under the reversed environment: same block outputs; the local answers themselves are non-trivial
+   (the query executes on the named version, the mempool's answer depends on the node's minimum gas price) *)
+Example C01_example_node_lives :
+  let nd1 := mkNode unit [] ex_state tt 0 in
+  let nd2 := mkNode nat [] ex_state 0%nat 0 in
+  let l1 := [NBlock ex_block; NBlock ex_block] in
+  let l2 := [NLocal (LQuery 0 (ex_tx 0 false None)); NBlock ex_block; NLocal (LQuery 0 (ex_tx 0 false None));
+             NLocal (LQuery 5 (ex_tx 0 false None)); NRestart; NLocal (LCheckTx (ex_tx 0 false None));
+             NLocal (LSimulate (ex_tx 4 false (Some (2 * 10 ^ 18)))); NBlock ex_block; NLocal (LQuery 2 (ex_tx 0 true None))] in
+  let r1 := node_run ex_interp impl_head unit (fun m _ => m) (fun m _ => m) tt (fun _ => env_id) nd1 l1 in
+  let r2 := node_run ex_interp impl_head nat (fun m _ => S m) (fun m _ => m) 0%nat (fun _ => env_rev) nd2 l2 in
+  blocks_of l1 = blocks_of l2 /\
+  block_outs (snd r1) = block_outs (snd r2) /\ length (block_outs (snd r2)) = 2%nat /\
+  nd_cur unit (fst r1) = nd_cur nat (fst r2) /\ nd_mem nat (fst r2) = 3%nat /\
+  map (fun o => match o with OLocal (Some r) _ => r_code r | OLocal None true => 1 | OLocal None false => 2 | _ => 3 end) (snd r2)
+    = [0; 3; 0; 2; 3; 2; 0; 3; 0].
+Proof. cbv zeta. repeat split; vm_compute; reflexivity. Qed.
